@@ -19,13 +19,25 @@ package vm
 //@ ghost var wVersion map[int]int
 //@ ghost var sdbCtxLayer map[ref]int
 
+// NewStateDB: VERIFIED for the C03 clauses (the representation invariant holds initially; the StateDB works in a child
+// layer of ctx with the same view). The clauses that link the abstract StateDB view (sdbBal, sdbNonce, sdbSupply ... of
+// prelude/31_geth_vm.spec, used by x/evm/keeper) to the bank / auth state of layer(ctx) are TRUSTED: that view is not
+// defined in terms of cStateDb's fields, so they cannot be checked against the body.
 //@ func NewStateDB(ctx sdk.Context, coinbase common.Address, ethKeeper EvmKeeper, accountKeeper authkeeper.AccountKeeper, bankKeeper bankkeeper.Keeper) CStateDB
-//@   assumed
+//@   requires ethKeeper != nil
 //@   modifies nothing
-//@   ensures result != nil && fresh(payload(result)) && sdbCtxLayer[payload(result)] == layer(ctx)
-//@   ensures forall a common.Address :: sdbBal[payload(result)][a] >= 0 && sdbBal[payload(result)][a] == bankBal[layer(ctx)][addrBytes(a)][evmDenomOf[layer(ctx)]] && sdbNonce[payload(result)][a] == acctSeq[layer(ctx)][addrBytes(a)]
-//@   ensures sdbSupply[payload(result)] == bankSupply[layer(ctx)][evmDenomOf[layer(ctx)]]
-//@   ensures forall d string :: d != evmDenomOf[layer(ctx)] ==> sdbSupplyX[payload(result)][d] == bankSupply[layer(ctx)][d]
+//@   ensures[C03.new_object] result != nil && typeof(result) == type(*cStateDb) && fresh(payload(result))
+//@   ensures[C03.new_fields] unbox(result, type(*cStateDb)).originalCtx == ctx && unbox(result, type(*cStateDb)).evmKeeper == ethKeeper && unbox(result, type(*cStateDb)).bankKeeper == bankKeeper && unbox(result, type(*cStateDb)).accountKeeper == accountKeeper && unbox(result, type(*cStateDb)).coinbase == coinbase && unbox(result, type(*cStateDb)).evmDenom == evmDenomOf[layer(ctx)] && unbox(result, type(*cStateDb)).refund == 0 && len(unbox(result, type(*cStateDb)).logs) == 0
+//@   ensures[C03.new_view] len(unbox(result, type(*cStateDb)).snapshots) == 1 && viewEq(layer(unbox(result, type(*cStateDb)).currentCtx), layer(ctx)) && lyrParent(layer(unbox(result, type(*cStateDb)).currentCtx)) == layer(ctx) && layer(unbox(result, type(*cStateDb)).currentCtx) != layer(ctx)
+//@   ensures[C03.new_empty] (forall a common.Address :: !(a in unbox(result, type(*cStateDb)).touched) && !(a in unbox(result, type(*cStateDb)).selfDestructed) && !(a in unbox(result, type(*cStateDb)).accessList.elements) && !(a in unbox(unbox(result, type(*cStateDb)).transientStorage, type(transientStorage))))
+//@   ensures[C03.new_inv_stack] sdbStack(unbox(result, type(*cStateDb)))
+//@   ensures[C03.new_inv_layers] sdbLayers(unbox(result, type(*cStateDb)))
+//@   ensures[C03.new_inv_live] sdbLive(unbox(result, type(*cStateDb)))
+//@   ensures[C03.new_inv_sep] sdbSep(unbox(result, type(*cStateDb)))
+//@   trusted ensures sdbCtxLayer[payload(result)] == layer(ctx)
+//@   trusted ensures forall a common.Address :: sdbBal[payload(result)][a] >= 0 && sdbBal[payload(result)][a] == bankBal[layer(ctx)][addrBytes(a)][evmDenomOf[layer(ctx)]] && sdbNonce[payload(result)][a] == acctSeq[layer(ctx)][addrBytes(a)]
+//@   trusted ensures sdbSupply[payload(result)] == bankSupply[layer(ctx)][evmDenomOf[layer(ctx)]]
+//@   trusted ensures forall d string :: d != evmDenomOf[layer(ctx)] ==> sdbSupplyX[payload(result)][d] == bankSupply[layer(ctx)][d]
 //@   panics never
 
 //@ func (d CStateDB) GetTransactionLogs() []*ethtypes.Log
@@ -44,3 +56,628 @@ package vm
 //@   ensures err == nil ==> (forall a common.Address :: (sdbNonce[payload(d)][a] > 0 && isEmptyCodeHash(sdbCodeHash[payload(d)][a])) ==> (acctSeq[sdbCtxLayer[payload(d)]][addrBytes(a)] == sdbNonce[payload(d)][a] && bankBal[sdbCtxLayer[payload(d)]][addrBytes(a)][evmDenomOf[sdbCtxLayer[payload(d)]]] == sdbBal[payload(d)][a]))
 //@   ensures err != nil ==> (bankBal[sdbCtxLayer[payload(d)]] == old(bankBal[sdbCtxLayer[payload(d)]]) && bankSupply[sdbCtxLayer[payload(d)]] == old(bankSupply[sdbCtxLayer[payload(d)]]) && acctSeq[sdbCtxLayer[payload(d)]] == old(acctSeq[sdbCtxLayer[payload(d)]]))
 //@   panics any
+
+// ---------------------------------------------------------------------------------------------
+// state_db_account_tracker.go — AccountTracker (a Go map used as a set; maps are references)
+// ---------------------------------------------------------------------------------------------
+
+//@ func newAccountTracker() AccountTracker
+//@   modifies nothing
+//@   ensures[C03.tracker_new] result != nil && fresh(result) && (forall a common.Address :: !(a in result))
+//@   panics never
+
+//@ func (t AccountTracker) Add(addr common.Address)
+//@   requires t != nil
+//@   modifies contents(t)
+//@   ensures[C03.tracker_add] keys(t) == old(keys(t))[addr := true]
+//@   panics never
+
+//@ func (t AccountTracker) Has(addr common.Address) bool
+//@   modifies nothing
+//@   ensures[C03.tracker_has] result == (addr in t)
+//@   panics never
+
+//@ func (t AccountTracker) Delete(addr common.Address)
+//@   modifies contents(t)
+//@   ensures[C03.tracker_delete] keys(t) == old(keys(t))[addr := false]
+//@   panics never
+
+// Copy: a NEW map with the same keys and values (deep copy: the result shares nothing with t).
+//@ func (t AccountTracker) Copy() AccountTracker
+//@   modifies nothing
+//@   ensures[C03.tracker_copy_fresh] result != nil && fresh(result)
+//@   ensures[C03.tracker_copy_equal] forall a common.Address :: (a in result) == (a in t) && result[a] == t[a]
+//@   panics never
+//@ loop 1
+//@   modifies contents(tracker)
+//@   invariant tracker != nil && fresh(tracker)
+//@   invariant forall a common.Address :: (a in tracker) == (visited[a] && (a in t))
+//@   invariant forall a common.Address :: (a in tracker) ==> tracker[a] == t[a]
+
+// ---------------------------------------------------------------------------------------------
+// state_db_logs.go — Logs (slice of log pointers; the log objects themselves are never mutated by the StateDB)
+// ---------------------------------------------------------------------------------------------
+
+// Copy: a NEW backing array with the same elements (so appends to either slice never show through the other).
+//@ func (l Logs) Copy() Logs
+//@   modifies nothing
+//@   ensures[C03.logs_copy_nil] (l == nil) == (result == nil)
+//@   ensures[C03.logs_copy_fresh] l != nil ==> fresh(base(result))
+//@   ensures[C03.logs_copy_equal] len(result) == len(l) && (forall i int :: 0 <= i && i < len(l) ==> result[i] == l[i])
+//@   panics never
+
+// ---------------------------------------------------------------------------------------------
+// state_db_access_list.go — AccessList2: address -> set of slots, as a map of maps (all references)
+// Abstract view: address a is warm iff  a in al.elements ; slot (a, s) is warm iff  s in al.elements[a].
+// ---------------------------------------------------------------------------------------------
+
+// Well-formedness: distinct addresses never share an inner slot map (otherwise adding a slot for one address
+// would warm it for another one).
+//@ ghost macro alOk(al *AccessList2) bool = al != nil && al.elements != nil && (forall a common.Address, b common.Address :: (a != b && al.elements[a] != nil) ==> al.elements[a] != al.elements[b])
+
+//@ func newAccessList2() *AccessList2
+//@   modifies nothing
+//@   ensures[C03.al_new] result != nil && fresh(result) && fresh(result.elements) && (forall a common.Address :: !(a in result.elements)) && alOk(result)
+//@   panics never
+
+//@ func (al *AccessList2) ContainsAddress(address common.Address) bool
+//@   requires al != nil
+//@   modifies nothing
+//@   ensures[C03.al_contains_address] result == (address in al.elements)
+//@   panics never
+
+//@ func (al *AccessList2) Contains(address common.Address, slot common.Hash) (addressPresent bool, slotPresent bool)
+//@   requires al != nil
+//@   modifies nothing
+//@   ensures[C03.al_contains] addressPresent == (address in al.elements) && slotPresent == (slot in al.elements[address])
+//@   panics never
+
+//@ func (al *AccessList2) AddAddress(address common.Address) bool
+//@   requires alOk(al)
+//@   modifies contents(al.elements)
+//@   ensures[C03.al_add_address] result == !old(address in al.elements) && (forall a common.Address :: (a in al.elements) == (a == address || old(a in al.elements)))
+//@   ensures[C03.al_add_address_slots] forall a common.Address :: al.elements[a] == old(al.elements[a])
+//@   ensures alOk(al)
+//@   panics never
+
+// AddSlot writes in place only into the non-empty inner map of this very address; otherwise it allocates a new map.
+//@ func (al *AccessList2) AddSlot(address common.Address, slot common.Hash) (addrChange bool, slotChange bool)
+//@   requires alOk(al)
+//@   modifies contents(al.elements), contents(al.elements[address])
+//@   ensures[C03.al_add_slot_flags] addrChange == !old(address in al.elements) && slotChange == !old(slot in al.elements[address])
+//@   ensures[C03.al_add_slot_view] (forall a common.Address :: (a in al.elements) == (a == address || old(a in al.elements))) && (forall a common.Address, s common.Hash :: (s in al.elements[a]) == ((a == address && s == slot) || old(s in al.elements[a])))
+//@   ensures[C03.al_add_slot_noshare] (forall a common.Address :: a != address ==> al.elements[a] == old(al.elements[a])) && al.elements[address] != nil && (al.elements[address] == old(al.elements[address]) || fresh(al.elements[address]))
+//@   ensures alOk(al)
+//@   panics never
+
+//@ func (al *AccessList2) DeleteSlot(address common.Address, slot common.Hash)
+//@   requires alOk(al)
+//@   modifies contents(al.elements), contents(al.elements[address])
+//@   ensures[C03.al_delete_slot] (forall a common.Address :: (a in al.elements) == old(a in al.elements)) && (forall a common.Address, s common.Hash :: (s in al.elements[a]) == (old(s in al.elements[a]) && !(a == address && s == slot)))
+//@   ensures alOk(al)
+//@   panics[C03.al_delete_slot_panics] iff !(address in al.elements)
+
+//@ func (al *AccessList2) DeleteAddress(address common.Address)
+//@   requires alOk(al)
+//@   modifies contents(al.elements)
+//@   ensures[C03.al_delete_address] forall a common.Address :: (a in al.elements) == (a != address && old(a in al.elements)) && (a != address ==> al.elements[a] == old(al.elements[a]))
+//@   ensures alOk(al)
+//@   panics never
+
+// Copy: deep copy — a new AccessList2, a new outer map and a new inner map per address that has slots
+// (addresses without slots map to nil). Nothing of the result is shared with al.
+//@ func (al *AccessList2) Copy() *AccessList2
+//@   requires al != nil
+//@   modifies nothing
+//@   ensures[C03.al_copy_fresh] result != nil && fresh(result) && result.elements != nil && fresh(result.elements) && (forall a common.Address :: result.elements[a] == nil || fresh(result.elements[a]))
+//@   ensures[C03.al_copy_equal] (forall a common.Address :: (a in result.elements) == (a in al.elements)) && (forall a common.Address, s common.Hash :: (s in result.elements[a]) == (s in al.elements[a]))
+//@   ensures[C03.al_copy_ok] alOk(result)
+//@   panics never
+//@ loop 1
+//@   modifies contents(elements)
+//@   invariant elements != nil && fresh(elements)
+//@   invariant forall a common.Address :: (a in elements) == (visited[a] && (a in al.elements))
+//@   invariant forall a common.Address, s common.Hash :: (s in elements[a]) == ((a in elements) && (s in al.elements[a]))
+//@   invariant forall a common.Address :: elements[a] == nil || (fresh(elements[a]) && allocated(elements[a]))
+//@   invariant forall a common.Address, b common.Address :: (a != b && elements[a] != nil) ==> elements[a] != elements[b]
+//@ loop 2
+//@   modifies contents(slots)
+//@   invariant slots != nil && fresh(slots) && (forall a common.Address :: elements[a] != slots)
+//@   invariant forall s common.Hash :: (s in slots) == (visited[s] && (s in existingSlots))
+
+// ---------------------------------------------------------------------------------------------
+// state_db_transient_store*.go — transientStorage: address -> (key -> value), a map of geth Storage maps
+// Abstract view: value of (a, k) is  t[a][k]  (zero hash when absent).
+// ---------------------------------------------------------------------------------------------
+//@ import ethstate "github.com/ethereum/go-ethereum/core/state"
+
+// Well-formedness: every stored inner map is non-nil and distinct addresses never share an inner map.
+//@ ghost macro tsOk(t transientStorage) bool = t != nil && (forall a common.Address, b common.Address :: ((a in t) ==> t[a] != nil) && ((a != b && (a in t) && (b in t)) ==> t[a] != t[b]))
+
+//@ func newTransientStorage() transientStorage
+//@   modifies nothing
+//@   ensures[C03.ts_new] result != nil && fresh(result) && (forall a common.Address :: !(a in result)) && tsOk(result)
+//@   panics never
+
+// Set writes into the inner map of this very address (allocating it when missing).
+//@ func (t transientStorage) Set(addr common.Address, key common.Hash, value common.Hash)
+//@   requires tsOk(t)
+//@   modifies contents(t), contents(t[addr])
+//@   ensures[C03.ts_set_view] forall a common.Address, k common.Hash :: t[a][k] == ((a == addr && k == key) ? value : old(t[a][k]))
+//@   ensures[C03.ts_set_noshare] (forall a common.Address :: a != addr ==> (t[a] == old(t[a]) && (a in t) == old(a in t))) && (addr in t) && (old(addr in t) ? t[addr] == old(t[addr]) : fresh(t[addr]))
+//@   ensures tsOk(t)
+//@   panics never
+
+//@ func (t transientStorage) Get(addr common.Address, key common.Hash) common.Hash
+//@   modifies nothing
+//@   ensures[C03.ts_get] result == t[addr][key]
+//@   panics never
+
+// Copy: deep copy — a new outer map and a new inner map for every address.
+//@ func (t transientStorage) Copy() transientStorage
+//@   modifies nothing
+//@   ensures[C03.ts_copy_fresh] result != nil && fresh(result) && (forall a common.Address :: (a in result) ==> (result[a] != nil && fresh(result[a])))
+//@   ensures[C03.ts_copy_equal] forall a common.Address, k common.Hash :: (a in result) == (a in t) && (k in result[a]) == (k in t[a]) && result[a][k] == t[a][k]
+//@   ensures[C03.ts_copy_ok] tsOk(result)
+//@   panics never
+//@ loop 1
+//@   modifies contents(storage)
+//@   invariant storage != nil && fresh(storage)
+//@   invariant forall a common.Address :: (a in storage) == (visited[a] && (a in t))
+//@   invariant forall a common.Address :: (a in storage) ==> (storage[a] != nil && fresh(storage[a]) && allocated(storage[a]))
+//@   invariant forall a common.Address, k common.Hash :: (a in storage) ==> ((k in storage[a]) == (k in t[a]) && storage[a][k] == t[a][k])
+//@   invariant forall a common.Address, b common.Address :: (a != b && (a in storage) && (b in storage)) ==> storage[a] != storage[b]
+
+// Clone: Copy behind the TransientStorage interface.
+//@ func (t transientStorage) Clone() TransientStorage
+//@   modifies nothing
+//@   ensures[C03.ts_clone] typeof(result) == type(transientStorage) && payload(result) != nil && fresh(payload(result)) && allocated(payload(result))
+//@   ensures[C03.ts_clone_fresh] forall a common.Address :: (a in unbox(result, type(transientStorage))) ==> (unbox(result, type(transientStorage))[a] != nil && fresh(unbox(result, type(transientStorage))[a]))
+//@   ensures[C03.ts_clone_equal] forall a common.Address, k common.Hash :: (a in unbox(result, type(transientStorage))) == (a in t) && (k in unbox(result, type(transientStorage))[a]) == (k in t[a]) && unbox(result, type(transientStorage))[a][k] == t[a][k]
+//@   ensures[C03.ts_clone_ok] tsOk(unbox(result, type(transientStorage)))
+//@   panics never
+
+// TransientStorage interface: the only implementation is transientStorage; the interface-level contracts restate the
+// concrete ones for a receiver of that dynamic type.
+//@ func (t TransientStorage) Clone() TransientStorage
+//@   requires typeof(t) == type(transientStorage)
+//@   modifies nothing
+//@   ensures typeof(result) == type(transientStorage) && payload(result) != nil && fresh(payload(result)) && allocated(payload(result))
+//@   ensures forall a common.Address :: (a in unbox(result, type(transientStorage))) ==> (unbox(result, type(transientStorage))[a] != nil && fresh(unbox(result, type(transientStorage))[a]))
+//@   ensures forall a common.Address, k common.Hash :: (a in unbox(result, type(transientStorage))) == (a in unbox(t, type(transientStorage))) && (k in unbox(result, type(transientStorage))[a]) == (k in unbox(t, type(transientStorage))[a]) && unbox(result, type(transientStorage))[a][k] == unbox(t, type(transientStorage))[a][k]
+//@   ensures tsOk(unbox(result, type(transientStorage)))
+//@   panics never
+//@ func (t TransientStorage) Set(addr common.Address, key common.Hash, value common.Hash)
+//@   requires typeof(t) == type(transientStorage) && tsOk(unbox(t, type(transientStorage)))
+//@   modifies contents(unbox(t, type(transientStorage))), contents(unbox(t, type(transientStorage))[addr])
+//@   ensures forall a common.Address, k common.Hash :: unbox(t, type(transientStorage))[a][k] == ((a == addr && k == key) ? value : old(unbox(t, type(transientStorage))[a][k]))
+//@   ensures (forall a common.Address :: a != addr ==> (unbox(t, type(transientStorage))[a] == old(unbox(t, type(transientStorage))[a]) && (a in unbox(t, type(transientStorage))) == old(a in unbox(t, type(transientStorage))))) && (addr in unbox(t, type(transientStorage))) && (old(addr in unbox(t, type(transientStorage))) ? unbox(t, type(transientStorage))[addr] == old(unbox(t, type(transientStorage))[addr]) : fresh(unbox(t, type(transientStorage))[addr]))
+//@   ensures tsOk(unbox(t, type(transientStorage)))
+//@   panics never
+//@ func (t TransientStorage) Get(addr common.Address, key common.Hash) common.Hash
+//@   requires typeof(t) == type(transientStorage)
+//@   modifies nothing
+//@   ensures result == unbox(t, type(transientStorage))[addr][key]
+//@   panics never
+
+// ---------------------------------------------------------------------------------------------
+// state_db_snapshot.go / state_db.go — the snapshot stack (C03)
+// ---------------------------------------------------------------------------------------------
+
+// content equality of the revertible components (a = now, b = now)
+//@ ghost macro trackerEq(a AccountTracker, b AccountTracker) bool = forall x common.Address :: (x in a) == (x in b)
+//@ ghost macro alEq(a *AccessList2, b *AccessList2) bool = (forall x common.Address :: (x in a.elements) == (x in b.elements)) && (forall x common.Address, s common.Hash :: (s in a.elements[x]) == (s in b.elements[x]))
+//@ ghost macro logsEq(a Logs, b Logs) bool = len(a) == len(b) && (forall i int :: (0 <= i && i < len(a)) ==> a[i] == b[i])
+//@ ghost macro tsEq(a transientStorage, b transientStorage) bool = forall x common.Address, k common.Hash :: (x in a) == (x in b) && a[x][k] == b[x][k]
+
+// a snapshot record is taken: a child layer of workingCtx with the same view, and DEEP copies of every revertible component
+//@ func newStateDbSnapshotFromStateDb(stateDb *cStateDb, workingCtx sdk.Context) RtStateDbSnapshot
+//@   requires stateDb != nil && stateDb.accessList != nil && typeof(stateDb.transientStorage) == type(transientStorage)
+//@   modifies nothing
+//@   ensures[C03.rec_layer] lyrParent(layer(result.snapshotCtx)) == layer(workingCtx) && lyrDepth(layer(result.snapshotCtx)) == lyrDepth(layer(workingCtx)) + 1 && viewEq(layer(result.snapshotCtx), layer(workingCtx)) && hdr(result.snapshotCtx) == hdr(workingCtx)
+//@   ensures[C03.rec_write_func] isWriteCache(result.writeFunc) && wcChild(result.writeFunc) == layer(result.snapshotCtx) && wcParent(result.writeFunc) == layer(workingCtx)
+//@   ensures[C03.rec_equal] trackerEq(result.touched, stateDb.touched) && trackerEq(result.selfDestructed, stateDb.selfDestructed) && alEq(result.accessList, stateDb.accessList) && logsEq(result.logs, stateDb.logs) && result.refund == stateDb.refund && typeof(result.transientStorage) == type(transientStorage) && tsEq(unbox(result.transientStorage, type(transientStorage)), unbox(stateDb.transientStorage, type(transientStorage)))
+//@   ensures[C03.rec_fresh] result.touched != nil && fresh(result.touched) && result.selfDestructed != nil && fresh(result.selfDestructed) && result.touched != result.selfDestructed && result.accessList != nil && fresh(result.accessList) && fresh(result.accessList.elements) && (forall a common.Address :: result.accessList.elements[a] == nil || fresh(result.accessList.elements[a])) && (stateDb.logs == nil ? result.logs == nil : fresh(base(result.logs))) && fresh(payload(result.transientStorage)) && allocated(payload(result.transientStorage)) && (forall a common.Address :: (a in unbox(result.transientStorage, type(transientStorage))) ==> fresh(unbox(result.transientStorage, type(transientStorage))[a]))
+//@   ensures alOk(result.accessList) && tsOk(unbox(result.transientStorage, type(transientStorage)))
+//@   panics never
+
+// Representation invariant of *cStateDb (C03), in four parts.
+// (1) stack shape: record i has id i-1, the current context is the context of the last record, not committed
+//@ ghost macro sdbStack(d *cStateDb) bool = d != nil && len(d.snapshots) >= 1 && (forall i int :: (0 <= i && i < len(d.snapshots)) ==> d.snapshots[i].id == i - 1) && d.currentCtx == d.snapshots[len(d.snapshots) - 1].snapshotCtx && !d.committed
+// (2) layer chain: record 0 branches from the original context, record i from record i-1; writeFunc i flushes layer i into its parent
+//@ ghost macro sdbLayersDepth(d *cStateDb) bool = forall i int :: (0 <= i && i < len(d.snapshots)) ==> (lyrDepth(layer(d.snapshots[i].snapshotCtx)) == lyrDepth(layer(d.originalCtx)) + 1 + i && hdr(d.snapshots[i].snapshotCtx) == hdr(d.originalCtx))
+//@ ghost macro sdbLayersParent(d *cStateDb) bool = forall i int :: (0 <= i && i < len(d.snapshots)) ==> lyrParent(layer(d.snapshots[i].snapshotCtx)) == (i == 0 ? layer(d.originalCtx) : layer(d.snapshots[i - 1].snapshotCtx))
+//@ ghost macro sdbLayersWrite(d *cStateDb) bool = forall i int :: (0 <= i && i < len(d.snapshots)) ==> (isWriteCache(d.snapshots[i].writeFunc) && wcChild(d.snapshots[i].writeFunc) == layer(d.snapshots[i].snapshotCtx) && wcParent(d.snapshots[i].writeFunc) == (i == 0 ? layer(d.originalCtx) : layer(d.snapshots[i - 1].snapshotCtx)))
+//@ ghost macro sdbLayers(d *cStateDb) bool = sdbLayersDepth(d) && sdbLayersParent(d) && sdbLayersWrite(d)
+// (3) the live components are well-formed
+//@ ghost macro sdbLive(d *cStateDb) bool = d.touched != nil && d.selfDestructed != nil && d.touched != d.selfDestructed && alOk(d.accessList) && typeof(d.transientStorage) == type(transientStorage) && allocated(payload(d.transientStorage)) && tsOk(unbox(d.transientStorage, type(transientStorage)))
+// (4) separation: no map / backing array reachable from the live components is reachable from a snapshot record
+//     (the live ones are the only ones mutators write to; records are only read, by RevertToSnapshot)
+//@ ghost macro recSepTouched(d *cStateDb, i int) bool = d.snapshots[i].touched != d.touched && d.snapshots[i].touched != d.selfDestructed
+//@ ghost macro recSepSelfDestructed(d *cStateDb, i int) bool = d.snapshots[i].selfDestructed != d.touched && d.snapshots[i].selfDestructed != d.selfDestructed
+//@ ghost macro recSepAl(d *cStateDb, i int) bool = d.snapshots[i].accessList != nil && d.snapshots[i].accessList != d.accessList && d.snapshots[i].accessList.elements != d.accessList.elements && (forall a common.Address, b common.Address :: d.accessList.elements[a] != nil ==> d.accessList.elements[a] != d.snapshots[i].accessList.elements[b])
+//@ ghost macro recSepLogs(d *cStateDb, i int) bool = d.snapshots[i].logs == nil || base(d.snapshots[i].logs) != base(d.logs)
+//@ ghost macro recSepTs(d *cStateDb, i int) bool = typeof(d.snapshots[i].transientStorage) == type(transientStorage) && allocated(payload(d.snapshots[i].transientStorage)) && payload(d.snapshots[i].transientStorage) != payload(d.transientStorage) && (forall a common.Address, b common.Address :: (a in unbox(d.transientStorage, type(transientStorage))) ==> unbox(d.transientStorage, type(transientStorage))[a] != unbox(d.snapshots[i].transientStorage, type(transientStorage))[b])
+//@ ghost macro sdbSepTouched(d *cStateDb) bool = forall i int :: (0 <= i && i < len(d.snapshots)) ==> recSepTouched(d, i)
+//@ ghost macro sdbSepSelfDestructed(d *cStateDb) bool = forall i int :: (0 <= i && i < len(d.snapshots)) ==> recSepSelfDestructed(d, i)
+//@ ghost macro sdbSepAl(d *cStateDb) bool = forall i int :: (0 <= i && i < len(d.snapshots)) ==> recSepAl(d, i)
+//@ ghost macro sdbSepLogs(d *cStateDb) bool = forall i int :: (0 <= i && i < len(d.snapshots)) ==> recSepLogs(d, i)
+//@ ghost macro sdbSepTs(d *cStateDb) bool = forall i int :: (0 <= i && i < len(d.snapshots)) ==> recSepTs(d, i)
+//@ ghost macro sdbSep(d *cStateDb) bool = sdbSepTouched(d) && sdbSepSelfDestructed(d) && sdbSepAl(d) && sdbSepLogs(d) && sdbSepTs(d)
+//@ ghost macro sdbInv(d *cStateDb) bool = sdbStack(d) && sdbLayers(d) && sdbLive(d) && sdbSep(d)
+
+// Snapshot: pushes a record holding deep copies of the live components and continues in a child layer with the same view.
+//@ func (d *cStateDb) Snapshot() int
+//@   requires sdbInv(d)
+//@   modifies d.currentCtx, d.snapshots, contents(d.snapshots)
+//@   ensures[C03.snap_id] result == old(len(d.snapshots)) - 1 && len(d.snapshots) == old(len(d.snapshots)) + 1
+//@   ensures[C03.snap_older_records] forall i int :: (0 <= i && i < old(len(d.snapshots))) ==> d.snapshots[i] == old(d.snapshots[i])
+//@   ensures[C03.snap_record_touched] trackerEq(d.snapshots[result + 1].touched, d.touched) && trackerEq(d.snapshots[result + 1].selfDestructed, d.selfDestructed)
+//@   ensures[C03.snap_record_al] alEq(d.snapshots[result + 1].accessList, d.accessList)
+//@   ensures[C03.snap_record_logs] logsEq(d.snapshots[result + 1].logs, d.logs) && d.snapshots[result + 1].refund == d.refund
+//@   ensures[C03.snap_record_ts] tsEq(unbox(d.snapshots[result + 1].transientStorage, type(transientStorage)), unbox(d.transientStorage, type(transientStorage)))
+//@   ensures[C03.snap_view] viewEq(layer(d.currentCtx), old(layer(d.currentCtx))) && lyrParent(layer(d.currentCtx)) == old(layer(d.currentCtx))
+//@   ensures[C03.snap_inv_stack] sdbStack(d)
+//@   ensures[C03.snap_inv_layers_depth] sdbLayersDepth(d)
+//@   ensures[C03.snap_inv_layers_parent] sdbLayersParent(d)
+//@   ensures[C03.snap_inv_layers_write] sdbLayersWrite(d)
+//@   ensures[C03.snap_inv_live] sdbLive(d)
+//@   ensures[C03.snap_inv_sep_touched] sdbSepTouched(d)
+//@   ensures[C03.snap_inv_sep_self_destructed] sdbSepSelfDestructed(d)
+//@   ensures[C03.snap_inv_sep_al] sdbSepAl(d)
+//@   ensures[C03.snap_inv_sep_logs] sdbSepLogs(d)
+//@   ensures[C03.snap_inv_sep_ts] sdbSepTs(d)
+//@   panics never
+
+// RevertToSnapshot(id): the records after id+1 are dropped, the world view becomes the view of record id's layer (through a
+// NEW child layer of it), every live component becomes a fresh deep copy of what record id+1 saved (the record itself is
+// kept, untouched, so the same id can be reverted to again), the refund counter is restored.
+//@ func (d *cStateDb) RevertToSnapshot(id int)
+//@   requires sdbInv(d)
+//@   modifies d.currentCtx, d.touched, d.refund, d.selfDestructed, d.accessList, d.logs, d.transientStorage, d.snapshots, contents(d.snapshots)
+//@   ensures[C03.revert_len] len(d.snapshots) == id + 2
+//@   ensures[C03.revert_older_records] forall i int :: (0 <= i && i <= id) ==> d.snapshots[i] == old(d.snapshots[i])
+//@   ensures[C03.revert_record_kept] d.snapshots[id + 1].id == id && d.snapshots[id + 1].touched == old(d.snapshots[id + 1].touched) && d.snapshots[id + 1].selfDestructed == old(d.snapshots[id + 1].selfDestructed) && d.snapshots[id + 1].accessList == old(d.snapshots[id + 1].accessList) && d.snapshots[id + 1].logs == old(d.snapshots[id + 1].logs) && d.snapshots[id + 1].transientStorage == old(d.snapshots[id + 1].transientStorage) && d.snapshots[id + 1].refund == old(d.snapshots[id + 1].refund)
+//@   ensures[C03.revert_view] d.currentCtx == d.snapshots[id + 1].snapshotCtx && viewEq(layer(d.currentCtx), old(layer(d.snapshots[id].snapshotCtx))) && lyrParent(layer(d.currentCtx)) == old(layer(d.snapshots[id].snapshotCtx))
+//@   ensures[C03.revert_touched] trackerEq(d.touched, d.snapshots[id + 1].touched) && trackerEq(d.selfDestructed, d.snapshots[id + 1].selfDestructed)
+//@   ensures[C03.revert_access_list] alEq(d.accessList, d.snapshots[id + 1].accessList)
+//@   ensures[C03.revert_logs] logsEq(d.logs, d.snapshots[id + 1].logs)
+//@   ensures[C03.revert_refund] d.refund == d.snapshots[id + 1].refund
+//@   ensures[C03.revert_transient] tsEq(unbox(d.transientStorage, type(transientStorage)), unbox(d.snapshots[id + 1].transientStorage, type(transientStorage)))
+//@   ensures[C03.revert_fresh] fresh(d.touched) && fresh(d.selfDestructed) && fresh(d.accessList) && fresh(d.accessList.elements) && fresh(payload(d.transientStorage)) && (d.logs == nil || fresh(base(d.logs)))
+//@   ensures[C03.revert_inv_stack] sdbStack(d)
+//@   ensures[C03.revert_inv_layers_depth] sdbLayersDepth(d)
+//@   ensures[C03.revert_inv_layers_parent] sdbLayersParent(d)
+//@   ensures[C03.revert_inv_layers_write] sdbLayersWrite(d)
+//@   ensures[C03.revert_inv_live] sdbLive(d)
+//@   ensures[C03.revert_inv_sep_touched] sdbSepTouched(d)
+//@   ensures[C03.revert_inv_sep_self_destructed] sdbSepSelfDestructed(d)
+//@   ensures[C03.revert_inv_sep_al] sdbSepAl(d)
+//@   ensures[C03.revert_inv_sep_logs] sdbSepLogs(d)
+//@   ensures[C03.revert_inv_sep_ts] sdbSepTs(d)
+//@   panics[C03.revert_panics] iff id < 0 || id + 1 >= len(d.snapshots)
+
+// ---------------------------------------------------------------------------------------------
+// interfaces.go — EvmKeeper: ASSUMED summaries of the x/evm/keeper accessors behind the interface (prefix stores over the
+// evm KV store + codecs; x/evm/keeper/statedb.go, keeper.go, params.go), over the abstract evm state of
+// /verif/prelude/41_statedb_evm_state.spec. Every accessor reads / writes only the layer of the context it is given.
+// ---------------------------------------------------------------------------------------------
+//@ import evmtypes "github.com/EscanBE/evermint/v12/x/evm/types"
+//@ import big "math/big"
+
+//@ func (k EvmKeeper) GetParams(ctx sdk.Context) (params evmtypes.Params)
+//@   assumed
+//@   modifies nothing
+//@   ensures params.EvmDenom == evmDenomOf[layer(ctx)]
+//@   panics never
+//@ func (k EvmKeeper) GetEip155ChainId(ctx sdk.Context) evmtypes.Eip155ChainId
+//@   assumed
+//@   modifies nothing
+//@   panics never
+//@ func (k EvmKeeper) GetCodeHash(ctx sdk.Context, addr []byte) common.Hash
+//@   assumed
+//@   modifies nothing
+//@   ensures result == (evmCodeHash[layer(ctx)][bytes(addr)] != zero(type(common.Hash)) ? evmCodeHash[layer(ctx)][bytes(addr)] : (acctExists[layer(ctx)][bytes(addr)] ? emptyCodeHash() : zero(type(common.Hash))))
+//@   panics never
+//@ func (k EvmKeeper) SetCodeHash(ctx sdk.Context, addr common.Address, codeHash common.Hash)
+//@   assumed
+//@   modifies evmCodeHash[layer(ctx)]
+//@   ensures evmCodeHash[layer(ctx)] == old(evmCodeHash[layer(ctx)])[addrBytes(addr) := (isEmptyCodeHash(codeHash) ? zero(type(common.Hash)) : codeHash)]
+//@   panics never
+//@ func (k EvmKeeper) DeleteCodeHash(ctx sdk.Context, addr []byte)
+//@   assumed
+//@   modifies evmCodeHash[layer(ctx)]
+//@   ensures evmCodeHash[layer(ctx)] == old(evmCodeHash[layer(ctx)])[bytes(addr) := zero(type(common.Hash))]
+//@   panics never
+//@ func (k EvmKeeper) GetCode(ctx sdk.Context, codeHash common.Hash) []byte
+//@   assumed
+//@   modifies nothing
+//@   panics never
+//@ func (k EvmKeeper) SetCode(ctx sdk.Context, codeHash []byte, code []byte)
+//@   assumed
+//@   modifies evmCodeVer[layer(ctx)]
+//@   panics never
+//@ func (k EvmKeeper) GetState(ctx sdk.Context, addr common.Address, key common.Hash) common.Hash
+//@   assumed
+//@   modifies nothing
+//@   ensures result == evmStorage[layer(ctx)][addr][key]
+//@   panics never
+//@ func (k EvmKeeper) SetState(ctx sdk.Context, addr common.Address, key common.Hash, value []byte)
+//@   assumed
+//@   modifies evmStorage[layer(ctx)]
+//@   ensures evmStorage[layer(ctx)] == old(evmStorage[layer(ctx)])[addr := old(evmStorage[layer(ctx)][addr])[key := (len(value) == 0 ? zero(type(common.Hash)) : hashOfBytes(bytes(value)))]]
+//@   panics never
+// IsEmptyAccount (keeper.go): empty code hash, no balance in any denomination, sequence 0 (or no account), no storage entry
+//@ func (k EvmKeeper) IsEmptyAccount(ctx sdk.Context, addr common.Address) bool
+//@   assumed
+//@   modifies nothing
+//@   ensures result == (evmCodeHash[layer(ctx)][addrBytes(addr)] == zero(type(common.Hash)) && (forall den string :: bankBal[layer(ctx)][addrBytes(addr)][den] == 0) && acctSeq[layer(ctx)][addrBytes(addr)] == 0 && (forall k common.Hash :: evmStorage[layer(ctx)][addr][k] == zero(type(common.Hash))))
+//@   panics never
+// ForEachStorage calls cb on the storage entries of addr. Higher-order: the engine cannot expand the callback, so this
+// summary only bounds the effect for the callbacks used in THIS package (they call back into the same keeper with the
+// same context, i.e. they write the same layer only); what the iteration achieves is not expressed (see DestroyAccount).
+//@ func (k EvmKeeper) ForEachStorage(ctx sdk.Context, addr common.Address, cb func(key common.Hash, value common.Hash) bool)
+//@   assumed
+//@   modifies evmStorage[layer(ctx)]
+//@   ensures forall a common.Address :: a != addr ==> evmStorage[layer(ctx)][a] == old(evmStorage[layer(ctx)][a])
+//@   panics never
+
+// ---------------------------------------------------------------------------------------------
+// state_db.go — coin operations (C04: every EVM credit is a bank mint, every debit a bank burn; C15: burns respect locks)
+// ---------------------------------------------------------------------------------------------
+
+// mintCoins: MintCoins(evm module) then SendCoinsFromModuleToAccount: the supply and the account's balance grow by exactly
+// `coins`, the module account ends where it started; any bank error aborts (panic).
+//@ func (d cStateDb) mintCoins(accAddr sdk.AccAddress, coins sdk.Coins)
+//@   requires d.bankKeeper != nil
+//@   modifies bankBal[layer(d.currentCtx)], bankSupply[layer(d.currentCtx)], authVersion[layer(d.currentCtx)], evlog[payload(d.currentCtx.EventManager())]
+//@   ensures[C04.mint_balances] forall a bytes, den string :: bankBal[layer(d.currentCtx)][a][den] == old(bankBal[layer(d.currentCtx)][a][den]) + (a == bytes(accAddr) ? coinsAmt(content(coins), den) : 0)
+//@   ensures[C04.mint_supply] forall den string :: bankSupply[layer(d.currentCtx)][den] == old(bankSupply[layer(d.currentCtx)][den]) + coinsAmt(content(coins), den)
+//@   panics any
+
+// burnCoins: SendCoinsFromAccountToModule then BurnCoins: supply and balance shrink by exactly `coins`; a normal return
+// means every (positive) amount was spendable (not vesting-locked at the block time of the context).
+//@ func (d cStateDb) burnCoins(accAddr sdk.AccAddress, coins sdk.Coins)
+//@   requires d.bankKeeper != nil
+//@   modifies bankBal[layer(d.currentCtx)], bankSupply[layer(d.currentCtx)], authVersion[layer(d.currentCtx)], evlog[payload(d.currentCtx.EventManager())]
+//@   ensures[C04.burn_balances] forall a bytes, den string :: bankBal[layer(d.currentCtx)][a][den] == old(bankBal[layer(d.currentCtx)][a][den]) - (a == bytes(accAddr) ? coinsAmt(content(coins), den) : 0)
+//@   ensures[C04.burn_supply] forall den string :: bankSupply[layer(d.currentCtx)][den] == old(bankSupply[layer(d.currentCtx)][den]) - coinsAmt(content(coins), den)
+//@   ensures[C15.burn_only_spendable] forall den string :: coinsAmt(content(coins), den) > 0 ==> coinsAmt(content(coins), den) <= old(bankBal[layer(d.currentCtx)][bytes(accAddr)][den]) - bankLocked(layer(d.currentCtx), hdr(d.currentCtx), bytes(accAddr), den)
+//@   panics any
+
+//@ func (d *cStateDb) AddBalance(address common.Address, b *big.Int)
+//@   requires d != nil && d.touched != nil && d.bankKeeper != nil && b != nil
+//@   modifies contents(d.touched), bankBal[layer(d.currentCtx)], bankSupply[layer(d.currentCtx)], authVersion[layer(d.currentCtx)], evlog[payload(d.currentCtx.EventManager())]
+//@   ensures[C03.mut_touched] forall a common.Address :: (a in d.touched) == (a == address || old(a in d.touched))
+//@   ensures[C04.add_balance] forall a bytes, den string :: bankBal[layer(d.currentCtx)][a][den] == old(bankBal[layer(d.currentCtx)][a][den]) + ((a == addrBytes(address) && den == d.evmDenom) ? bigval[b] : 0)
+//@   ensures[C04.add_supply] forall den string :: bankSupply[layer(d.currentCtx)][den] == old(bankSupply[layer(d.currentCtx)][den]) + (den == d.evmDenom ? bigval[b] : 0)
+//@   panics any
+
+//@ func (d *cStateDb) SubBalance(address common.Address, b *big.Int)
+//@   requires d != nil && d.touched != nil && d.bankKeeper != nil && b != nil
+//@   modifies contents(d.touched), bankBal[layer(d.currentCtx)], bankSupply[layer(d.currentCtx)], authVersion[layer(d.currentCtx)], evlog[payload(d.currentCtx.EventManager())]
+//@   ensures[C03.mut_touched] forall a common.Address :: (a in d.touched) == (a == address || old(a in d.touched))
+//@   ensures[C04.sub_balance] forall a bytes, den string :: bankBal[layer(d.currentCtx)][a][den] == old(bankBal[layer(d.currentCtx)][a][den]) - ((a == addrBytes(address) && den == d.evmDenom) ? bigval[b] : 0)
+//@   ensures[C04.sub_supply] forall den string :: bankSupply[layer(d.currentCtx)][den] == old(bankSupply[layer(d.currentCtx)][den]) - (den == d.evmDenom ? bigval[b] : 0)
+//@   ensures[C15.sub_only_spendable] bigval[b] > 0 ==> bigval[b] <= old(bankBal[layer(d.currentCtx)][addrBytes(address)][d.evmDenom]) - bankLocked(layer(d.currentCtx), hdr(d.currentCtx), addrBytes(address), d.evmDenom)
+//@   panics any
+
+// ---------------------------------------------------------------------------------------------
+// state_db.go — the other mutators: each one writes only LIVE components (never a snapshot record, never the snapshot
+// stack) and only the innermost store layer  (C03: "mutators only touch live components")
+// ---------------------------------------------------------------------------------------------
+
+//@ func (d *cStateDb) createAccountIfNotExists(address common.Address)
+//@   requires d != nil
+//@   modifies acctExists[layer(d.currentCtx)], acctSeq[layer(d.currentCtx)], authVersion[layer(d.currentCtx)]
+//@   ensures[C03.mut_create_if_missing] acctExists[layer(d.currentCtx)] == old(acctExists[layer(d.currentCtx)])[addrBytes(address) := true] && acctSeq[layer(d.currentCtx)] == old(acctSeq[layer(d.currentCtx)])
+//@   panics never
+
+//@ func (d *cStateDb) SetNonce(address common.Address, n uint64)
+//@   requires d != nil && d.touched != nil
+//@   modifies contents(d.touched), acctExists[layer(d.currentCtx)], acctSeq[layer(d.currentCtx)], authVersion[layer(d.currentCtx)], accObjSeq
+//@   ensures[C03.mut_touched] forall a common.Address :: (a in d.touched) == (a == address || old(a in d.touched))
+//@   ensures[C03.mut_set_nonce,C06.set_nonce] acctSeq[layer(d.currentCtx)] == old(acctSeq[layer(d.currentCtx)])[addrBytes(address) := n] && acctExists[layer(d.currentCtx)] == old(acctExists[layer(d.currentCtx)])[addrBytes(address) := true]
+//@   panics never
+
+//@ func (d *cStateDb) SetCode(address common.Address, code []byte)
+//@   requires d != nil && d.touched != nil && d.evmKeeper != nil
+//@   modifies contents(d.touched), acctExists[layer(d.currentCtx)], acctSeq[layer(d.currentCtx)], authVersion[layer(d.currentCtx)], evmCodeHash[layer(d.currentCtx)], evmCodeVer[layer(d.currentCtx)]
+//@   ensures[C03.mut_touched] forall a common.Address :: (a in d.touched) == (a == address || old(a in d.touched))
+//@   panics any
+
+//@ func (d *cStateDb) SetState(address common.Address, key common.Hash, value common.Hash)
+//@   requires d != nil && d.touched != nil && d.evmKeeper != nil
+//@   modifies contents(d.touched), acctExists[layer(d.currentCtx)], acctSeq[layer(d.currentCtx)], authVersion[layer(d.currentCtx)], evmStorage[layer(d.currentCtx)]
+//@   ensures[C03.mut_touched] forall a common.Address :: (a in d.touched) == (a == address || old(a in d.touched))
+//@   ensures[C03.mut_set_state] forall a common.Address :: a != address ==> evmStorage[layer(d.currentCtx)][a] == old(evmStorage[layer(d.currentCtx)][a])
+//@   panics any
+
+//@ func (d *cStateDb) GetState(address common.Address, hash common.Hash) common.Hash
+//@   requires d != nil && d.evmKeeper != nil
+//@   modifies nothing
+//@   ensures[C03.get_state] result == evmStorage[layer(d.currentCtx)][address][hash]
+//@   panics never
+
+//@ func (d *cStateDb) AddRefund(gas uint64)
+//@   requires d != nil
+//@   modifies d.refund
+//@   ensures[C03.mut_add_refund] d.refund == old(d.refund) + gas
+//@   panics[C03.add_refund_overflow] iff d.refund + gas >= pow2(64)
+
+//@ func (d *cStateDb) SubRefund(gas uint64)
+//@   requires d != nil
+//@   modifies d.refund
+//@   ensures[C03.mut_sub_refund] d.refund == old(d.refund) - gas
+//@   panics[C03.sub_refund_underflow] iff gas > d.refund
+
+//@ func (d *cStateDb) GetRefund() uint64
+//@   requires d != nil
+//@   modifies nothing
+//@   ensures[C03.get_refund] result == d.refund
+//@   panics never
+
+//@ func (d *cStateDb) GetTransientState(addr common.Address, key common.Hash) common.Hash
+//@   requires d != nil && typeof(d.transientStorage) == type(transientStorage)
+//@   modifies nothing
+//@   ensures[C03.get_transient] result == unbox(d.transientStorage, type(transientStorage))[addr][key]
+//@   panics never
+
+//@ func (d *cStateDb) SetTransientState(addr common.Address, key common.Hash, value common.Hash)
+//@   requires sdbInv(d)
+//@   modifies contents(unbox(d.transientStorage, type(transientStorage))), contents(unbox(d.transientStorage, type(transientStorage))[addr])
+//@   ensures[C03.mut_set_transient] forall a common.Address, k common.Hash :: unbox(d.transientStorage, type(transientStorage))[a][k] == ((a == addr && k == key) ? value : old(unbox(d.transientStorage, type(transientStorage))[a][k]))
+//@   ensures[C03.mut_set_transient_live] sdbLive(d)
+//@   ensures[C03.mut_set_transient_sep] sdbSepTs(d)
+//@   panics never
+
+//@ func (d *cStateDb) AddLog(log *ethtypes.Log)
+//@   requires sdbInv(d)
+//@   modifies d.logs, contents(d.logs)
+//@   ensures[C03.mut_add_log] len(d.logs) == old(len(d.logs)) + 1 && d.logs[old(len(d.logs))] == log && (forall i int :: (0 <= i && i < old(len(d.logs))) ==> d.logs[i] == old(d.logs[i]))
+//@   ensures[C03.mut_add_log_sep] sdbSepLogs(d)
+//@   panics never
+
+//@ func (d *cStateDb) AddressInAccessList(addr common.Address) bool
+//@   requires d != nil && d.accessList != nil
+//@   modifies nothing
+//@   ensures[C03.al_address_in] result == (addr in d.accessList.elements)
+//@   panics never
+
+//@ func (d *cStateDb) SlotInAccessList(addr common.Address, slot common.Hash) (addressOk bool, slotOk bool)
+//@   requires d != nil && d.accessList != nil
+//@   modifies nothing
+//@   ensures[C03.al_slot_in] addressOk == (addr in d.accessList.elements) && slotOk == (slot in d.accessList.elements[addr])
+//@   panics never
+
+//@ func (d *cStateDb) AddAddressToAccessList(addr common.Address)
+//@   requires sdbInv(d)
+//@   modifies contents(d.accessList.elements)
+//@   ensures[C03.mut_al_add_address] (forall a common.Address :: (a in d.accessList.elements) == (a == addr || old(a in d.accessList.elements))) && (forall a common.Address :: d.accessList.elements[a] == old(d.accessList.elements[a]))
+//@   ensures[C03.mut_al_add_address_live] sdbLive(d)
+//@   ensures[C03.mut_al_add_address_sep] sdbSepAl(d)
+//@   panics never
+
+//@ func (d *cStateDb) AddSlotToAccessList(addr common.Address, slot common.Hash)
+//@   requires sdbInv(d)
+//@   modifies contents(d.accessList.elements), contents(d.accessList.elements[addr])
+//@   ensures[C03.mut_al_add_slot] (forall a common.Address :: (a in d.accessList.elements) == (a == addr || old(a in d.accessList.elements))) && (forall a common.Address, s common.Hash :: (s in d.accessList.elements[a]) == ((a == addr && s == slot) || old(s in d.accessList.elements[a])))
+//@   ensures[C03.mut_al_add_slot_live] sdbLive(d)
+//@   ensures[C03.mut_al_add_slot_sep] sdbSepAl(d)
+//@   panics never
+
+//@ func (d *cStateDb) HasSuicided(address common.Address) bool
+//@   requires d != nil
+//@   modifies nothing
+//@   ensures[C03.has_suicided] result == (address in d.selfDestructed)
+//@   panics never
+
+//@ func (d *cStateDb) GetCurrentContext() sdk.Context
+//@   requires d != nil
+//@   modifies nothing
+//@   ensures[C03.current_ctx] result == d.currentCtx
+//@   panics never
+
+// ---------------------------------------------------------------------------------------------
+// state_db.go — account destruction / creation / self-destruct (C15, supply effects C04)
+// ---------------------------------------------------------------------------------------------
+//@ import vestexported "github.com/cosmos/cosmos-sdk/x/auth/vesting/exported"
+//@ import vestingtypes "github.com/cosmos/cosmos-sdk/x/auth/vesting/types"
+
+// the account stored at address bytes a in layer l is PROTECTED at (unix) time t: a module account, or a vesting account
+// (any kind) whose vesting period has not ended at t
+//@ ghost macro acctProtectedAt(l int, a bytes, t int) bool = acctExists[l][a] && (implements(acctTag[l][a], type(sdk.ModuleAccountI)) || ((acctTag[l][a] == type(*vestingtypes.BaseVestingAccount) || implements(acctTag[l][a], type(vestexported.VestingAccount))) && acctVestEnd[l][a] > t))
+
+// DestroyAccount removes the account record, burns every balance, removes code hash and storage of addr — and must refuse
+// (panic, which fails the transaction) protected accounts, judged at the BLOCK TIME of the current context (property C15).
+// The storage clause is TRUSTED: it is what the ForEachStorage callback achieves (higher-order, not expanded by the engine).
+//@ func (d *cStateDb) DestroyAccount(addr common.Address)
+//@   requires d != nil && d.bankKeeper != nil && d.evmKeeper != nil
+//@   modifies acctExists[layer(d.currentCtx)], acctSeq[layer(d.currentCtx)], authVersion[layer(d.currentCtx)], acctTag[layer(d.currentCtx)], acctVestEnd[layer(d.currentCtx)], bankBal[layer(d.currentCtx)], bankSupply[layer(d.currentCtx)], evlog[payload(d.currentCtx.EventManager())], evmCodeHash[layer(d.currentCtx)], evmStorage[layer(d.currentCtx)]
+//@   ensures[C15.destroy_module_refused] !old(acctExists[layer(d.currentCtx)][addrBytes(addr)] && implements(acctTag[layer(d.currentCtx)][addrBytes(addr)], type(sdk.ModuleAccountI)))
+//@   ensures[C15.destroy_protected_refused] !old(acctProtectedAt(layer(d.currentCtx), addrBytes(addr), hdrTimeUnix(hdr(d.currentCtx))))
+//@   ensures[C15.destroy_account_record] !acctExists[layer(d.currentCtx)][addrBytes(addr)] && acctSeq[layer(d.currentCtx)][addrBytes(addr)] == 0 && (forall a bytes :: a != addrBytes(addr) ==> (acctExists[layer(d.currentCtx)][a] == old(acctExists[layer(d.currentCtx)][a]) && acctSeq[layer(d.currentCtx)][a] == old(acctSeq[layer(d.currentCtx)][a]) && acctTag[layer(d.currentCtx)][a] == old(acctTag[layer(d.currentCtx)][a]) && acctVestEnd[layer(d.currentCtx)][a] == old(acctVestEnd[layer(d.currentCtx)][a])))
+//@   ensures[C15.destroy_balances] forall a bytes, den string :: bankBal[layer(d.currentCtx)][a][den] == (a == addrBytes(addr) ? 0 : old(bankBal[layer(d.currentCtx)][a][den]))
+//@   ensures[C04.destroy_supply,C15.destroy_supply] forall den string :: bankSupply[layer(d.currentCtx)][den] == old(bankSupply[layer(d.currentCtx)][den]) - old(bankBal[layer(d.currentCtx)][addrBytes(addr)][den])
+//@   ensures[C15.destroy_no_locked_coins] forall den string :: old(bankBal[layer(d.currentCtx)][addrBytes(addr)][den]) > 0 ==> bankLocked(layer(d.currentCtx), hdr(d.currentCtx), addrBytes(addr), den) <= 0
+//@   ensures[C15.destroy_code_hash] forall a bytes :: evmCodeHash[layer(d.currentCtx)][a] == (a == addrBytes(addr) ? zero(type(common.Hash)) : old(evmCodeHash[layer(d.currentCtx)][a]))
+//@   ensures[C15.destroy_other_storage] forall a common.Address :: a != addr ==> evmStorage[layer(d.currentCtx)][a] == old(evmStorage[layer(d.currentCtx)][a])
+//@   trusted ensures[C15.destroy_storage] forall k common.Hash :: evmStorage[layer(d.currentCtx)][addr][k] == zero(type(common.Hash))
+//@   panics[C15.destroy_refuses_only_protected] only_if acctProtectedAt(layer(d.currentCtx), addrBytes(addr), hdrTimeUnix(hdr(d.currentCtx))) || (exists den string :: bankBal[layer(d.currentCtx)][addrBytes(addr)][den] != 0)
+
+// CreateAccount (EVM CREATE at an address): whatever was at the address is destroyed (same guard), a fresh base account
+// is stored and the balances are carried over: no coin is created or lost.
+//@ func (d *cStateDb) CreateAccount(address common.Address)
+//@   requires d != nil && d.touched != nil && d.bankKeeper != nil && d.evmKeeper != nil
+//@   modifies contents(d.touched), acctExists[layer(d.currentCtx)], acctSeq[layer(d.currentCtx)], authVersion[layer(d.currentCtx)], acctTag[layer(d.currentCtx)], acctVestEnd[layer(d.currentCtx)], bankBal[layer(d.currentCtx)], bankSupply[layer(d.currentCtx)], evlog[payload(d.currentCtx.EventManager())], evmCodeHash[layer(d.currentCtx)], evmStorage[layer(d.currentCtx)]
+//@   ensures[C03.mut_touched] forall a common.Address :: (a in d.touched) == (a == address || old(a in d.touched))
+//@   ensures[C15.create_module_refused] !old(acctExists[layer(d.currentCtx)][addrBytes(address)] && implements(acctTag[layer(d.currentCtx)][addrBytes(address)], type(sdk.ModuleAccountI)))
+//@   ensures[C15.create_protected_refused] !old(acctProtectedAt(layer(d.currentCtx), addrBytes(address), hdrTimeUnix(hdr(d.currentCtx))))
+//@   ensures[C15.create_fresh_account] acctExists[layer(d.currentCtx)][addrBytes(address)] && acctSeq[layer(d.currentCtx)][addrBytes(address)] == 0 && evmCodeHash[layer(d.currentCtx)][addrBytes(address)] == zero(type(common.Hash))
+//@   ensures[C04.create_carries_balances] forall a bytes, den string :: bankBal[layer(d.currentCtx)][a][den] == old(bankBal[layer(d.currentCtx)][a][den])
+//@   ensures[C04.create_supply] forall den string :: bankSupply[layer(d.currentCtx)][den] == old(bankSupply[layer(d.currentCtx)][den])
+//@   panics any
+
+// Suicide marks an EXISTING account as self-destructed and burns its EVM-denomination balance (through SubBalance, so
+// locked coins cannot be burnt); for a missing account nothing but the touched set changes.
+//@ func (d *cStateDb) Suicide(address common.Address) bool
+//@   requires d != nil && d.touched != nil && d.selfDestructed != nil && d.touched != d.selfDestructed && d.bankKeeper != nil
+//@   modifies contents(d.touched), contents(d.selfDestructed), bankBal[layer(d.currentCtx)], bankSupply[layer(d.currentCtx)], authVersion[layer(d.currentCtx)], evlog[payload(d.currentCtx.EventManager())]
+//@   ensures[C03.mut_touched] forall a common.Address :: (a in d.touched) == (a == address || old(a in d.touched))
+//@   ensures[C15.suicide_marks_existing_only] result == old(acctExists[layer(d.currentCtx)][addrBytes(address)]) && (forall a common.Address :: (a in d.selfDestructed) == ((result && a == address) || old(a in d.selfDestructed)))
+//@   ensures[C04.suicide_burns_balance] forall a bytes, den string :: bankBal[layer(d.currentCtx)][a][den] == ((result && a == addrBytes(address) && den == d.evmDenom) ? 0 : old(bankBal[layer(d.currentCtx)][a][den]))
+//@   ensures[C04.suicide_supply] forall den string :: bankSupply[layer(d.currentCtx)][den] == old(bankSupply[layer(d.currentCtx)][den]) - ((result && den == d.evmDenom) ? old(bankBal[layer(d.currentCtx)][addrBytes(address)][den]) : 0)
+//@   panics any
+
+// Selfdestruct6780: Suicide only for an account created within the transaction; never marks a missing account.
+//@ func (d *cStateDb) Selfdestruct6780(address common.Address)
+//@   requires d != nil && d.touched != nil && d.selfDestructed != nil && d.touched != d.selfDestructed && d.bankKeeper != nil
+//@   modifies contents(d.touched), contents(d.selfDestructed), bankBal[layer(d.currentCtx)], bankSupply[layer(d.currentCtx)], authVersion[layer(d.currentCtx)], evlog[payload(d.currentCtx.EventManager())]
+//@   ensures[C15.sd6780_marks_existing_only] forall a common.Address :: (a in d.selfDestructed) ==> (old(a in d.selfDestructed) || (a == address && old(acctExists[layer(d.currentCtx)][addrBytes(address)])))
+//@   ensures[C15.sd6780_committed_accounts_kept] (!old(acctExists[layer(d.currentCtx)][addrBytes(address)])) ==> ((forall a common.Address :: (a in d.selfDestructed) == old(a in d.selfDestructed)) && bankBal[layer(d.currentCtx)] == old(bankBal[layer(d.currentCtx)]) && bankSupply[layer(d.currentCtx)] == old(bankSupply[layer(d.currentCtx)]))
+//@   ensures[C04.sd6780_supply] forall den string :: bankSupply[layer(d.currentCtx)][den] <= old(bankSupply[layer(d.currentCtx)][den])
+//@   panics any
+
+//@ func (d *cStateDb) Exist(address common.Address) bool
+//@   requires d != nil
+//@   modifies nothing
+//@   ensures[C15.exist] result == ((address in d.selfDestructed) || acctExists[layer(d.currentCtx)][addrBytes(address)])
+//@   panics never
+
+//@ func (d *cStateDb) Empty(address common.Address) bool
+//@   requires d != nil && d.evmKeeper != nil
+//@   modifies nothing
+//@   ensures[C15.empty] result == (evmCodeHash[layer(d.currentCtx)][addrBytes(address)] == zero(type(common.Hash)) && (forall den string :: bankBal[layer(d.currentCtx)][addrBytes(address)][den] == 0) && acctSeq[layer(d.currentCtx)][addrBytes(address)] == 0 && (forall k common.Hash :: evmStorage[layer(d.currentCtx)][address][k] == zero(type(common.Hash))))
+//@   panics never
+
+// ---------------------------------------------------------------------------------------------
+// state_db.go — CommitMultiStore, the concrete method (C03 flush order, C15 destroy loop, C04 supply).
+// The interface-level summary `(d CStateDB) CommitMultiStore` above is what x/evm/keeper uses; it is NOT derived from
+// this contract (the sdb* view it talks about is not defined over cStateDb's fields) and stays trusted.
+// A-vm1: the test-only package variable preventCommit is false.
+// ---------------------------------------------------------------------------------------------
+
+// EIP-161 emptiness of address a as seen through layer l (what EvmKeeper.IsEmptyAccount decides)
+//@ ghost macro emptyAt(l int, a common.Address) bool = evmCodeHash[l][addrBytes(a)] == zero(type(common.Hash)) && (forall den string :: bankBal[l][addrBytes(a)][den] == 0) && acctSeq[l][addrBytes(a)] == 0 && (forall k common.Hash :: evmStorage[l][a][k] == zero(type(common.Hash)))
+// nothing about address a changed in layer l since the call started
+//@ ghost macro acctUntouched(l int, a common.Address) bool = acctExists[l][addrBytes(a)] == old(acctExists[l][addrBytes(a)]) && acctSeq[l][addrBytes(a)] == old(acctSeq[l][addrBytes(a)]) && acctTag[l][addrBytes(a)] == old(acctTag[l][addrBytes(a)]) && acctVestEnd[l][addrBytes(a)] == old(acctVestEnd[l][addrBytes(a)]) && bankBal[l][addrBytes(a)] == old(bankBal[l][addrBytes(a)]) && evmCodeHash[l][addrBytes(a)] == old(evmCodeHash[l][addrBytes(a)]) && evmStorage[l][a] == old(evmStorage[l][a])
+// why address a may have been destroyed by this commit
+//@ ghost macro destroyJustified(d *cStateDb, a common.Address, deleteEmptyObjects bool) bool = (a in d.touched) && ((a in d.selfDestructed) || (deleteEmptyObjects && old(emptyAt(layer(d.currentCtx), a)))) && !old(acctProtectedAt(layer(d.currentCtx), addrBytes(a), hdrTimeUnix(hdr(d.currentCtx))))
+
+//@ func (d *cStateDb) CommitMultiStore(deleteEmptyObjects bool) (err error)
+//@   requires sdbInv(d) && !preventCommit && d.bankKeeper != nil && d.evmKeeper != nil
+//@   modifies d.committed, views, evlog
+//@   ensures[C03.commit_flushes_innermost_to_original] err == nil && d.committed && viewEq(layer(d.originalCtx), layer(d.currentCtx))
+//@   ensures[C15.commit_destroys_only_marked_or_empty] forall a common.Address :: acctUntouched(layer(d.currentCtx), a) || destroyJustified(d, a, deleteEmptyObjects)
+//@   ensures[C04.commit_supply] forall den string :: bankSupply[layer(d.currentCtx)][den] <= old(bankSupply[layer(d.currentCtx)][den])
+//@   panics any
+//@ loop 1
+//@   modifies view(layer(d.currentCtx)), evlog[payload(d.currentCtx.EventManager())]
+//@   invariant[C15.commit_loop_justified] forall a common.Address :: acctUntouched(layer(d.currentCtx), a) || (visited[a] && destroyJustified(d, a, deleteEmptyObjects))
+//@   invariant[C04.commit_loop_supply] forall den string :: bankSupply[layer(d.currentCtx)][den] <= old(bankSupply[layer(d.currentCtx)][den])
+//@ loop 2
+//@   modifies views, evlog
+//@   invariant[C03.commit_flush_index] -1 <= i && i < len(d.snapshots)
+//@   invariant[C03.commit_flush_progress] viewEq((i >= 0 ? layer(d.snapshots[i].snapshotCtx) : layer(d.originalCtx)), layer(d.currentCtx))
+//@   invariant[C15.commit_flush_keeps_justified] forall a common.Address :: acctUntouched(layer(d.currentCtx), a) || destroyJustified(d, a, deleteEmptyObjects)
+//@   invariant[C04.commit_flush_keeps_supply] forall den string :: bankSupply[layer(d.currentCtx)][den] <= old(bankSupply[layer(d.currentCtx)][den])
